@@ -74,9 +74,6 @@ func GRPCStatusCode(err error) codes.Code {
 	if code != codes.Unknown {
 		return code
 	}
-	if code, ok := errorsToCode[err]; ok {
-		return code
-	}
 	for e, c := range errorsToCode {
 		if errors.Is(err, e) {
 			return c
